@@ -7,7 +7,7 @@ NOT decided here.
 """
 PRELUDE = r'''
 #define VACUITY_PROBE() __CPROVER_assert(0, "vacuity-probe")
-long nondet_long(void); unsigned nondet_uint(void); _Bool nondet_bool(void); void *malloc(__CPROVER_size_t);
+long nondet_long(void); unsigned nondet_uint(void); _Bool nondet_bool(void); unsigned long nondet_ulong(void); void *malloc(__CPROVER_size_t);
 /* ---- ASSUMED models ---- */
 long thread_getid(void) { return nondet_long(); }
 void logelem_ctor(struct logelem_m *le, long tid, long *str, unsigned level, const char *fl, unsigned val)
@@ -45,6 +45,7 @@ void queue_release(struct queue_m *q, struct logelem_m *e) { if (g_released < 10
 _Bool str_empty_id(const long *s) { return *s == 0; }
 void sleep_model(unsigned us) { }
 /* ---- flush(): the buffered lines as an array of line identities; the stream as a ghost count of insertions ---- */
+long g_line; long g_line_written; _Bool g_line_write_locked;
 struct os_m g_stream; long *g_items0; long g_n; long g_written; _Bool g_in_order, g_all_writes_locked, g_locked; const void *g_lock_obj; long g_acquires, g_releases;
 void guard_acquired(const void *m) { g_locked = 1; g_lock_obj = m; if (g_acquires < 1000) g_acquires++; }
 void guard_released(const void *m) { g_locked = 0; if (g_releases < 1000) g_releases++; }
@@ -53,7 +54,18 @@ long *list_end(struct list_m *l) { return l->items + l->n; }
 _Bool g_clear_locked; void list_clear(struct list_m *l) { l->n = 0; g_clear_locked = g_locked; }
 struct os_m *logger_get_stream(const void *self) { return &g_stream; }
 struct os_m *stream_put_line(struct os_m *os, const long *s)
-{ if (s != g_items0 + g_written) g_in_order = 0; if (!g_locked) g_all_writes_locked = 0; if (g_written < 1000000000L) g_written++; return os; }   /* one line inserted: which one, and under the lock? */
+{ if (s != g_items0 + g_written) g_in_order = 0; if (!g_locked) g_all_writes_locked = 0; if (g_written < 1000000000L) g_written++;
+  if (*s == g_line) { if (g_line_written < 1000) g_line_written++; g_line_write_locked = g_locked; } return os; }   /* one line inserted: which one, and under the lock? */
+/* process_logline's output step: strings are identities; the line text has identity g_line, the formatted prefix g_prefix; a string value records whether the line text was appended to it */
+struct os_m ostr; long g_prefix; long g_line; long g_line_appends; long g_pushed; _Bool g_pushed_has_line, g_push_locked; long g_line_written; _Bool g_line_write_locked; long g_flushes;
+long oss_str(struct os_m *os) { return g_prefix; }
+unsigned long str_size_model(const long *s) { return nondet_ulong(); }
+char g_delim_ch; char *str_index_model(long *s, unsigned long i) { return &g_delim_ch; }
+long *str_append_char(long *s) { return s; }
+long *str_append_str(long *s, const long *x) { if (*x == g_line) { if (g_line_appends < 1000) g_line_appends++; *s = g_line; } return s; }     /* the result now carries the line text */
+void list_push_back(struct list_m *l, const long *x) { if (g_pushed < 1000) g_pushed++; g_pushed_has_line = (*x == g_line) && g_line_appends == 1; g_push_locked = g_locked; }
+struct os_m *stream_put_char(struct os_m *os) { return os; }
+void stream_flush(struct os_m *os) { if (g_flushes < 1000) g_flushes++; }
 struct os_m fostr; unsigned g_num_written; long g_num_calls;           /* process_logline's per-position stream (declared outside the extracted statement) and the number inserted into it */
 struct os_m *stream_put_uint(struct os_m *os, unsigned v) { g_num_written = v; if (g_num_calls < 1000) g_num_calls++; return os; }
 struct FIX8_Logger;
@@ -96,6 +108,19 @@ void h_sequence(void)
   __CPROVER_assert(inbound_counter ? (lg._sequence == s0 + 1 && lg._osequence == o0) : (lg._osequence == o0 + 1 && lg._sequence == s0), "C28.sequence.exactly_one_counter_advances_by_one");
   __CPROVER_assert(g_num_written == (inbound_counter ? s0 + 1 : o0 + 1), "C28.sequence.the_number_written_is_the_successor_of_the_previous_line_of_the_same_counter");
   __CPROVER_assert(by_direction || lg._osequence == o0, "C28.sequence.a_logger_that_does_not_separate_directions_numbers_all_lines_from_one_counter");
+  VACUITY_PROBE();
+}
+/* process_logline, output step: a processed line is handed on exactly once -- appended to the buffer once (buffering logger) or inserted into the stream once under the mutex */
+void h_output(void)
+{
+  struct FIX8_Logger lg; struct logelem_m e; lg._flags.a_ = nondet_uint(); lg._buffer.items = 0; lg._buffer.n = 0;
+  static long other_lines[4]; g_line = 7; g_prefix = 3; e._str = g_line; g_items0 = other_lines; g_written = 0;
+  g_line_appends = 0; g_pushed = 0; g_pushed_has_line = 0; g_line_written = 0; g_line_write_locked = 0; g_locked = 0; g_acquires = 0; g_releases = 0; g_flushes = 0;
+  logger_output_line(&lg, &e);
+  _Bool buffered = (lg._flags.a_ >> K_buffer) & 1u;
+  __CPROVER_assert(!buffered || (g_pushed == 1 && g_pushed_has_line && g_line_written == 0), "C28.output.a_buffering_logger_appends_the_line_to_its_buffer_exactly_once_and_writes_nothing");
+  __CPROVER_assert(buffered || (g_line_written == 1 && g_pushed == 0), "C28.output.a_direct_logger_inserts_the_line_into_the_stream_exactly_once");
+  __CPROVER_assert(buffered || (g_line_write_locked && g_lock_obj == (const void *)&lg._mutex && g_acquires == 1 && !g_locked), "C28.output.a_direct_write_happens_under_the_logger_mutex_which_is_released_afterwards");
   VACUITY_PROBE();
 }
 /* enqueue: exactly one submission, and the return value says whether the queue accepted it */
@@ -144,12 +169,31 @@ def _is_sequence_numbering(n):
     return not _contains(n, lambda x: x.get('kind') in ('SwitchStmt', 'CaseStmt', 'CXXForRangeStmt'))
 
 
+def _is_output_step(n):
+    """the last statement of Logger::process_logline: `if (_flags & buffer) { ...push_back... } else { ...get_stream() << ... }` -- the IfStmt that contains the push_back on _buffer"""
+    if n.get('kind') != 'IfStmt':
+        return False
+    return _contains(n, lambda x: x.get('kind') == 'MemberExpr' and x.get('name') == 'push_back') and not _contains(n, lambda x: x.get('kind') in ('SwitchStmt', 'CXXForRangeStmt'))
+
+
+def _str_append(em, n, args, stmt):
+    """std::string::operator+=: a delimiter character changes no line identity; appending a string records which one"""
+    t = em.tstr(args[1]['type'])
+    if t.strip() in ('char', 'const char'):
+        em.rules['string_delimiter_char'] += 1
+        return '(*str_append_char(%s))' % em.lvalue_addr(args[0])
+    return '(*str_append_str(%s, %s))' % (em.lvalue_addr(args[0]), em.lvalue_addr(args[1]))
+
+
 def _put_free(em, n, args, stmt):
     """std::operator<<(ostream&, X): a string is a line (flush); a manipulator object (setw/setfill) changes formatting only and leaves the stream's content alone"""
     t = em.tstr(args[1]['type'])
     if '_Setw' in t or '_Setfill' in t:
         em.rules['stream_manipulator_dropped'] += 1
         return em.expr(args[0])
+    if t.strip() in ('char', 'const char'):
+        em.rules['stream_delimiter_char'] += 1
+        return '(*stream_put_char(%s))' % em.lvalue_addr(args[0])
     return '(*stream_put_line(%s, %s))' % (em.lvalue_addr(args[0]), em.lvalue_addr(args[1]))
 
 
@@ -164,7 +208,7 @@ def _put_member(em, n, args, stmt):
 
 UNIT = dict(
     name='k_log', tu='tu/rt_logger.cpp', no_follow=True,
-    probe={'K_direction': 'FIX8::Logger::direction'},
+    probe={'K_direction': 'FIX8::Logger::direction', 'K_buffer': 'FIX8::Logger::buffer'},
     emit=dict(
         pod=[r'std::basic_string<char>', r'(std::)?(__cxx11::)?list<.*>'],
         type_map=[(r'(std::basic_string<char>|std::string|FIX8::f8String)', 'long'),
@@ -174,11 +218,13 @@ UNIT = dict(
                   (r'(std::)?(__cxx11::)?list<.*>', 'struct list_m'), (r'std::_List_(const_)?iterator<.*>', 'long *'), (r'(std::)?(__cxx11::)?(basic_)?o(string)?stream(<char.*>)?', 'struct os_m'), (r'FIX8::f8_mutex', 'struct mutex_m'),
                   (r'(FIX8::)?thread_id_t', 'long'), (r'FIX8::f8_thread_cancellation_token', 'int')],
         lazy_structs=[r'FIX8::Logger', r'FIX8::ebitset<.*>'],
-        globals={'fostr': 'fostr'},      # the local stream of process_logline's loop body, declared outside the statement that is extracted
+        globals={'fostr': 'fostr', 'ostr': 'ostr'},      # the local stream of process_logline's loop body, declared outside the statement that is extracted
         guard_ghost='guard_acquired', guard_ghost_release='guard_released',
-        calls_rx=[(r'(std::)?(__cxx11::)?list<.*>::begin', 'list_begin'), (r'(std::)?(__cxx11::)?list<.*>::end', 'list_end'), (r'(std::)?(__cxx11::)?list<.*>::clear', 'list_clear'),
+        calls_rx=[(r'(std::)?(__cxx11::)?list<.*>::push_back', dict(c='list_push_back', sig='void (const std::string &)')), (r'std::basic_ostringstream<char.*>::str', 'oss_str'), (r'std::basic_ostream<char.*>::flush', 'stream_flush'),
+                  (r'std::basic_string<char.*>::size', 'str_size_model'), (r'std::basic_string<char.*>::operator\[\]', 'str_index_model'),
+                  (r'(std::)?(__cxx11::)?list<.*>::begin', 'list_begin'), (r'(std::)?(__cxx11::)?list<.*>::end', 'list_end'), (r'(std::)?(__cxx11::)?list<.*>::clear', 'list_clear'),
                   ],
-        call_handlers={'std::basic_ostream<char>::operator<<': _put_member, 'operator<<': _put_free},
+        call_handlers={'std::basic_ostream<char>::operator<<': _put_member, 'operator<<': _put_free, 'std::basic_string<char>::operator+=': _str_append},
         calls={'getid': 'thread_getid', 'FIX8::Logger::get_stream': dict(c='logger_get_stream', sig='std::ostream &() const'),
                'FIX8::Logger::LogElement::LogElement': 'logelem_ctor',
                'struct logelem_m::LogElement': 'logelem_ctor',
@@ -193,7 +239,7 @@ UNIT = dict(
     pre_structs='struct queue_m { int dummy; };\nstruct list_m { long *items; long n; };\nstruct os_m { int dummy; };\nstruct mutex_m { int dummy; };\nstruct logelem_m { long tid; long _str; unsigned level; const char *fileline; unsigned _val; };\n',
     prelude=PRELUDE,
     force_fields={'FIX8::Logger': [('_flags', 'FIX8::ebitset<FIX8::Logger::Flags>'), ('_sequence', 'unsigned int'), ('_osequence', 'unsigned int'),
-                                   ('_buffer', 'std::list<std::string>'), ('_lines', 'unsigned long'), ('_mutex', 'FIX8::f8_mutex'), ('_levels', 'FIX8::ebitset<FIX8::Logger::Level>')]},
+                                   ('_buffer', 'std::list<std::string>'), ('_delim', 'std::string'), ('_lines', 'unsigned long'), ('_mutex', 'FIX8::f8_mutex'), ('_levels', 'FIX8::ebitset<FIX8::Logger::Level>')]},
     functions=[
         dict(q='FIX8::ebitset::operator&', filter='FIX8::ebitset', mangled='_ZNK4FIX87ebitsetINS_6Logger5LevelEjEanES2_', cname='levels_and', optional=True),
         dict(q='FIX8::ebitset::operator&', filter='FIX8::ebitset', mangled='_ZNK4FIX87ebitsetINS_6Logger5FlagsEjEanES2_', cname='flags_and'),
@@ -203,8 +249,9 @@ UNIT = dict(
         dict(q='FIX8::Logger::enqueue', sig=None, cname='logger_enqueue'),
         dict(q='FIX8::Logger::send', sig=None, cname='logger_send'),
         dict(q='FIX8::Logger::process_logline', sig=None, cname='logger_number_line', keep_logging=True, select_node=_is_sequence_numbering),
+        dict(q='FIX8::Logger::process_logline', sig=None, cname='logger_output_line', keep_logging=True, select_node=_is_output_step),
         dict(q='FIX8::Logger::flush', sig=None, cname='logger_flush', keep_logging=True,
-             loops={0: dict(assigns='__begin1, g_written, g_in_order, g_all_writes_locked',
+             loops={0: dict(assigns='__begin1, g_written, g_in_order, g_all_writes_locked, g_line_written, g_line_write_locked',
                             invariants=[('inv.cursor', '0 <= g_written && g_written <= g_n && g_n <= 1000000 && __CPROVER_same_object(__begin1, g_items0) && __CPROVER_POINTER_OFFSET(__begin1) == g_written * (long)sizeof(long) && __end1 == g_items0 + g_n'), ('inv.so_far', 'g_in_order && g_all_writes_locked')])}),
         dict(q='FIX8::Logger::operator()', sig=None, cname='logger_consumer',
              loops={0: dict(assigns='received, g_q_lines, g_stop_requested, g_marker_in_queue, g_processed, g_released, g_pops, g_popped',
@@ -215,10 +262,11 @@ UNIT = dict(
         dict(name='consumer', harness='h_consumer', loop_contracts=True, properties=['C28'], solvers=['cadical', 'z3'], timeout=dict(quick=300, thorough=900), floor=2, level='proved-modular'),
         dict(name='flush', harness='h_flush', loop_contracts=True, properties=['C28'], solvers=['cadical', 'z3'], timeout=dict(quick=300, thorough=900), floor=4, level='proved-modular'),
         dict(name='sequence', harness='h_sequence', properties=['C28'], solvers=['cadical', 'z3'], timeout=dict(quick=120, thorough=300), floor=4, level='proved-modular'),
+        dict(name='output', harness='h_output', properties=['C28'], solvers=['cadical', 'z3'], timeout=dict(quick=120, thorough=300), floor=3, level='proved-modular'),
         dict(name='enqueue', harness='h_enqueue', properties=['C28'], solvers=['cadical', 'z3'], timeout=dict(quick=120, thorough=300), floor=3, level='proved-modular'),
         dict(name='send', harness='h_send', properties=['C28'], solvers=['cadical', 'z3'], timeout=dict(quick=120, thorough=300), floor=5, level='proved-modular'),
     ],
     trusted_base=['ASSUMED: f8_concurrent_queue::try_push returns true exactly when it accepted the element (FastFlow wrapper ff_wrapper.hpp), the LogElement constructor stores its arguments, '
                   'f8_thread::getid returns the caller\'s thread id (model bodies in specs/k_log.py)'],
-    assumptions=['flush: std::list<std::string> is an array view of line identities and std::ostream a ghost count of insertions (ASSUMED: operator<< inserts its argument once; endl, setw, right, setfill do not change which lines are written); process_logline: only the statement that numbers a line is extracted (select_node), its stream `fostr` is a model object', 'the consumer loop is verified against an environment model (other threads act between its steps); producer-side interleavings (exactly once / in order under concurrent producers) are not decided'],
+    assumptions=['flush: std::list<std::string> is an array view of line identities and std::ostream a ghost count of insertions (ASSUMED: operator<< inserts its argument once; endl, setw, right, setfill do not change which lines are written); process_logline: only the statement that numbers a line and the final buffer-or-write statement are extracted (select_node); the streams `fostr` / `ostr` are model objects, std::string is an identity (appending the line text makes the result carry the line; delimiter characters change nothing), list::push_back / ostringstream::str / ostream::flush are ASSUMED models', 'the consumer loop is verified against an environment model (other threads act between its steps); producer-side interleavings (exactly once / in order under concurrent producers) are not decided'],
 )
